@@ -29,7 +29,7 @@ var gVals = []struct{ Name, Lit, Kind string }{
 }
 
 type gOp struct {
-	Op    string   `json:"op"`    // inst | write | call
+	Op    string   `json:"op"`    // inst | write | hwrite (through a shared helper function) | call
 	Class string   `json:"class"` // Box | Pair
 	Args  []string `json:"args"`  // type arguments for inst
 	Inst  int      `json:"inst"`  // target instance for write / call
@@ -37,7 +37,9 @@ type gOp struct {
 	Val   int      `json:"val"`   // index into gVals
 }
 
-const gPrelude = "<?php\nclass GU {}\nclass GV {}\nclass Box<T> { public T $v; public function put(T $x) { return 1; } }\nclass Pair<A, B> { public A $a; public B $b; }\n"
+// setv/seta/setb: one assignment statement shared by every instance it is applied to (a per-statement
+// cache of the resolved declaration would make a later instantiation inherit an earlier one's types)
+const gPrelude = "<?php\nclass GU {}\nclass GV {}\nclass Box<T> { public T $v; public function put(T $x) { return 1; } }\nclass Pair<A, B> { public A $a; public B $b; }\nfunction setv($o, $x) { $o->v = $x; }\nfunction seta($o, $x) { $o->a = $x; }\nfunction setb($o, $x) { $o->b = $x; }\n"
 
 func gScript(ops []gOp) string {
 	var sb strings.Builder
@@ -50,6 +52,8 @@ func gScript(ops []gOp) string {
 			ni++
 		case "write":
 			fmt.Fprintf(&sb, "try { $o%d->%s = %s; __obs(\"w%d\", \"ok\"); __obs(\"r%d\", $o%d->%s); } catch (Throwable $e) { __obs(\"w%d\", \"rej\"); __obs(\"m%d\", $e->getMessage()); }\n", op.Inst, op.Mem, gVals[op.Val].Lit, k, k, op.Inst, op.Mem, k, k)
+		case "hwrite":
+			fmt.Fprintf(&sb, "try { set%s($o%d, %s); __obs(\"w%d\", \"ok\"); __obs(\"r%d\", $o%d->%s); } catch (Throwable $e) { __obs(\"w%d\", \"rej\"); __obs(\"m%d\", $e->getMessage()); }\n", op.Mem, op.Inst, gVals[op.Val].Lit, k, k, op.Inst, op.Mem, k, k)
 		case "call":
 			fmt.Fprintf(&sb, "try { $o%d->put(%s); __obs(\"w%d\", \"ok\"); } catch (Throwable $e) { __obs(\"w%d\", \"rej\"); __obs(\"m%d\", $e->getMessage()); }\n", op.Inst, gVals[op.Val].Lit, k, k, k)
 		}
@@ -109,6 +113,9 @@ func c19Judge(pool *sb.Pool, rec *sb.Rec, ops []gOp) []*failure {
 		member := "prop"
 		if op.Op == "call" {
 			member = "method-param"
+		}
+		if op.Op == "hwrite" {
+			member = "prop-via-helper"
 		}
 		if strings.Contains(o[fmt.Sprintf("m%d", k)], sb.RecoveredPanicMarker) {
 			key := fmt.Sprintf("cell:%s:crash", member)
@@ -215,6 +222,7 @@ func TestC19(t *testing.T) {
 		for i := 0; i < ninst; i++ {
 			for v := range gVals {
 				gen(append(prefix, gOp{Op: "write", Inst: i, Mem: "v", Val: v}), ninst)
+				gen(append(prefix, gOp{Op: "hwrite", Inst: i, Mem: "v", Val: v}), ninst)
 			}
 		}
 	}
@@ -252,6 +260,9 @@ func TestC19(t *testing.T) {
 				if rapid.IntRange(0, 4).Draw(rt, "call") == 0 {
 					op.Op = "call"
 				}
+			}
+			if op.Op == "write" && rapid.IntRange(0, 2).Draw(rt, "helper") == 0 {
+				op.Op = "hwrite"
 			}
 			ops = append(ops, op)
 		}
